@@ -1303,6 +1303,11 @@ fn main() {
     "did:example:123:x%41y/a/b?x=1&y=2#key-1",
     "did:m:a/p#f",
     "did:m:a?q#f",
+    // bases whose last component ends in a percent-encoded character: appending another component must either be
+    // refused or yield a value that still re-parses
+    "did:m:a?q%41",
+    "did:m:a/p%2F",
+    "did:m:a#f%41",
   ];
   let did_bases = ["did:m:a", "did:example:123:x%41y", "did:m1:a.b-c_d"];
   for seg in &segs {
